@@ -2,6 +2,7 @@ package rules
 
 import (
 	"fmt"
+	"go/token"
 	"go/types"
 	"sort"
 	"strings"
@@ -467,6 +468,12 @@ func c09ShutdownCallers(e *Env) {
 				cc = &x.Call
 			default:
 				return
+			}
+			// the done signal kept as a context: its cancel function is the closer
+			if ld, isLd := cc.Value.(*ssa.UnOp); isLd && ld.Op == token.MUL && len(cc.Args) == 0 {
+				if owner, fl, isF := core.FieldOf(ld.X); isF && strings.HasPrefix(fl, "done") && strings.HasSuffix(owner, ".Session") && core.TypeName(ld.Type()) == "context.CancelFunc" {
+					closers = append(closers, core.FnName(f))
+				}
 			}
 			if b, ok := cc.Value.(*ssa.Builtin); ok && b.Name() == "close" && len(cc.Args) == 1 {
 				if ld, isLd := cc.Args[0].(*ssa.UnOp); isLd {
